@@ -126,6 +126,9 @@ fn cmd_strategy(profile: u8) -> BoxedStrategy<Vec<String>> {
     let arms: Vec<(u32, BoxedStrategy<Vec<String>>)> = vec![
         // plain SET
         (10, (str_key(profile), val_s(profile)).prop_map(|(k, v)| vec!["SET".into(), k, v]).boxed()),
+        // bare conditional SETs (often right after a DEL of the same key, here or remotely)
+        (w_opts / 2, (str_key(profile), val_s(profile), prop_oneof![Just("NX"), Just("XX")])
+            .prop_map(|(k, v, c)| vec!["SET".into(), k, v, c.to_string()]).boxed()),
         // SET with options
         (w_opts, (str_key(profile), val_s(profile), set_opts).prop_map(|(k, v, (cond, exp, get))| {
             let mut a = vec!["SET".to_string(), k, v];
@@ -593,16 +596,39 @@ impl<'a, 'b> Net<'a, 'b> {
             }
             self.ctx.label("trigger:failed_command_emitted_delta");
         }
-        // KF-C06-01 trigger, observed: conditional SET that did not write (NX on a key the node
-        // serves / XX on a key it does not serve), yet a delta was emitted
-        if name == "SET" && !reply.is_error() && !deltas.is_empty() {
-            let existed = pre_type[&cmd_keys[0]] != "none";
-            if (has("NX") && existed) || (has("XX") && !existed) {
-                self.key(&cmd_keys[0]).t1 = true;
-                if deltas.iter().any(|d| d.value.expiry_ms.is_some()) {
-                    self.key(&cmd_keys[0]).t1_exp = true;
+        // Conditional SET that did not write (NX on a key the node serves / XX on a key it does not
+        // serve) and yet emitted a delta. On the unchanged tree exactly one shape does that (see
+        // the check `conditional_set_sweep`): NX on a key the node serves as a *string*. Only
+        // that shape is KF-C06-01's trigger; any other one (XX on a deleted or expired key, NX
+        // on a hash ...) is reported on the spot.
+        if name == "SET" && (has("NX") || has("XX")) {
+            let k0 = &cmd_keys[0];
+            let existed = pre_type[k0] != "none";
+            let tomb = pre_snap.get(k0).map(|v| v.is_tombstone()).unwrap_or(false);
+            if !existed && tomb {
+                self.ctx.label(if has("XX") { "cond:xx_on_deleted_key" } else { "cond:nx_on_deleted_key" });
+            }
+            if !existed && !tomb && pre_snap.contains_key(k0) {
+                self.ctx.label("cond:on_key_absent_here_but_live_in_state");
+            }
+            let noop = (has("NX") && existed) || (has("XX") && !existed);
+            if noop && !reply.is_error() && !deltas.is_empty() {
+                if has("NX") && pre_type[k0] == "string" {
+                    self.key(k0).t1 = true;
+                    if deltas.iter().any(|d| d.value.expiry_ms.is_some()) {
+                        self.key(k0).t1_exp = true;
+                    }
+                    self.ctx.label("trigger:conditional_noop_emitted_delta");
+                } else {
+                    return Err(self.fail(format!(
+                        "n{} {}: the command did nothing (reply {}, the node served {} for the key before) and yet emitted a delta {}: the writer keeps serving the old state while every replica that merges the delta serves the new value",
+                        node + 1,
+                        argv.join(" "),
+                        reply.show(),
+                        if existed { pre_type[k0].as_str() } else { "nothing" },
+                        deltas.iter().map(|d| show_rv(&d.value)).collect::<Vec<_>>().join("; ")
+                    )));
                 }
-                self.ctx.label("trigger:conditional_noop_emitted_delta");
             }
         }
         // KF-C06-03 trigger, observed: DEL removed a hash from the executor while the node's
@@ -1236,6 +1262,133 @@ fn check_sim(case: &SimCase, ctx: &mut CaseCtx<'_>) -> Result<(), String> {
 }
 
 // ---------------------------------------------------------------------------------------
+// conditional SET sweep: {NX, XX} x {plain, GET} x key state at the accepting node
+// ---------------------------------------------------------------------------------------
+
+#[derive(Clone, Debug, Serialize, Deserialize)]
+struct SweepCase {
+    flag: String,
+    get: bool,
+    state: String,
+}
+
+const SWEEP_STATES: [&str; 8] = [
+    "never_seen",
+    "live_string",
+    "live_string_with_ttl",
+    "live_hash",
+    "deleted_locally",
+    "deleted_by_remote_delta",
+    "expired_and_evicted",
+    "remote_string_then_local_del_of_other_key",
+];
+
+fn sweep_cases() -> Vec<SweepCase> {
+    let mut v = Vec::new();
+    for flag in ["NX", "XX"] {
+        for get in [false, true] {
+            for state in SWEEP_STATES {
+                v.push(SweepCase { flag: flag.to_string(), get, state: state.to_string() });
+            }
+        }
+    }
+    v
+}
+
+/// One node, one key brought into `state`, then `SET k new <flag> [GET]`. Judged on what the
+/// command did to what the node serves versus whether it emitted a delta:
+///  * nothing changed and a delta was emitted -> the writer and its peers part ways; tolerated
+///    only in the listed shapes (KF-C06-01: NX on a live string; KF-C06-02: error reply);
+///  * something changed and no delta was emitted -> an accepted write nobody else ever sees.
+fn check_sweep(c: &SweepCase, ctx: &mut CaseCtx<'_>) -> Result<(), String> {
+    use redis_sim::redis::SDS;
+    use redis_sim::replication::ShardReplicaState;
+    vcore::block_on(async {
+        let node = ReplicatedShardActor::spawn(ReplicaId::new(1), ConsistencyLevel::Eventual, 0);
+        let k = "ka";
+        let mut remote = ShardReplicaState::new(ReplicaId::new(2), ConsistencyLevel::Eventual);
+        remote.lamport_clock.time = 4;
+        match c.state.as_str() {
+            "never_seen" => {}
+            "live_string" => {
+                run(&node, &["SET", k, "old"]).await?;
+            }
+            "live_string_with_ttl" => {
+                run(&node, &["SET", k, "old", "EX", "100"]).await?;
+            }
+            "live_hash" => {
+                run(&node, &["HSET", k, "f1", "old"]).await?;
+            }
+            "deleted_locally" => {
+                run(&node, &["SET", k, "old"]).await?;
+                run(&node, &["DEL", k]).await?;
+            }
+            "deleted_by_remote_delta" => {
+                node.apply_remote_delta(remote.record_write(k.to_string(), SDS::from_str("old"), None));
+                if let Some(d) = remote.record_delete(k.to_string()) {
+                    node.apply_remote_delta(d);
+                }
+            }
+            "expired_and_evicted" => {
+                run(&node, &["SET", k, "old", "PX", "1000"]).await?;
+                node.evict_expired(VirtualTime::from_millis(2000)).await;
+            }
+            "remote_string_then_local_del_of_other_key" => {
+                node.apply_remote_delta(remote.record_write(k.to_string(), SDS::from_str("old"), None));
+                run(&node, &["DEL", "kb"]).await?;
+            }
+            other => return Err(format!("harness: unknown state {}", other)),
+        }
+        let _ = node.drain_pending_deltas().await;
+        let before = observe(&node, k).await?;
+        let state_before = node.get_snapshot().await.get(k).map(show_rv).unwrap_or_else(|| "(no entry)".into());
+        let mut argv = vec!["SET", k, "new", c.flag.as_str()];
+        if c.get {
+            argv.push("GET");
+        }
+        let (reply, returned) = run(&node, &argv).await?;
+        let mut deltas = node.drain_pending_deltas().await;
+        if deltas.is_empty() {
+            deltas.extend(returned);
+        }
+        let after = observe(&node, k).await?;
+        let changed = before != after;
+        ctx.nontrivial(&(c.flag.clone(), c.get, c.state.clone()));
+        ctx.label(&format!(
+            "sweep:{}:{}",
+            if changed { "wrote" } else { "did_nothing" },
+            if deltas.is_empty() { "no_delta" } else { "delta" }
+        ));
+        let what = format!(
+            "key state '{}' (node served {}, replication state {}), then {} -> {}; node now serves {}; delta: {}",
+            c.state,
+            before.body.show(),
+            state_before,
+            argv.join(" "),
+            reply.show(),
+            after.body.show(),
+            deltas.first().map(|d| show_rv(&d.value)).unwrap_or_else(|| "none".into())
+        );
+        if !changed && !deltas.is_empty() {
+            let listed = if reply.is_error() {
+                ctx.tolerate(KF2)
+            } else if c.flag == "NX" && matches!(before.body, Body::Str(_)) {
+                ctx.tolerate(KF1)
+            } else {
+                false
+            };
+            if !listed {
+                return Err(format!("a conditional SET that did nothing emitted a delta: {}", what));
+            }
+        }
+        if changed && deltas.is_empty() {
+            return Err(format!("a conditional SET changed what the node serves but emitted no delta: {}", what));
+        }
+        Ok(())
+    })
+}
+
+// ---------------------------------------------------------------------------------------
 // probes: minimal reproducers, run through the check itself with nothing tolerated
 // ---------------------------------------------------------------------------------------
 
@@ -1336,6 +1489,11 @@ fn main() {
 
     let thorough = s.thorough();
     s.run_cases("actor_programs", s.scale(50_000, 1_000_000), || case_strategy(thorough), check_case);
+    s.describe_check(
+        "conditional_set_sweep",
+        "exhaustive: {NX, XX} x {plain, GET} x 8 key states at the accepting node (never seen, live string, with TTL, live hash, deleted locally, deleted by a remote delta, expired and evicted, known only from a remote delta); a command that did nothing must not emit a delta except in the listed shapes (KF-C06-01 NX on a live string, KF-C06-02 error reply), a command that wrote must emit one",
+    );
+    s.run_enumerated("conditional_set_sweep", sweep_cases().into_iter(), check_sweep);
     s.run_cases("sim_programs", s.scale(30_000, 400_000), || sim_case_strategy(thorough), check_sim);
     s.run_cases("coordinator_programs", s.scale(5_000, 150_000), || coord::coord_case_strategy(thorough), coord::check_coord);
     s.finish();
